@@ -78,6 +78,9 @@ def check(prog, run):
     run.rule("R-dtype", "no returned table takes its dtype from the requested frequencies / orders as the caller typed them (integers truncate what is stored)", 0)
     reach2 = sorted(q_ for q_ in prog.reachable([prog.func(q_).qual for q_ in ("functions.ssi.SSI_mpe", "functions.plscf.pLSCF_mpe")]) if q_ in prog.functions and not q_.startswith("pyoma2.functions.plot"))
     astq.inherited_dtype_rule(prog, run, "R-dtype", reach2)
+    run.rule("R-filter-guard", "a selection that removes the modes outside the tolerance is carried out whenever the closeness mask rejects something (not only "
+             "when it accepts nothing)", 0)
+    astq.empty_selection_rule(prog.raw, run, "R-filter-guard", [q_ for q_ in reach if q_ in prog.raw.functions])
 
 
 def _row_is_nearest(prog, pf, row, tF, col, freqvar, tables):
